@@ -15,7 +15,8 @@ MANIFEST = dict(
          "matching iff own condition and all globals of the namespace, abort/error on a rule message stop with success/callback-error, one import+imported "
          "pair per module, error on a module message fails the scan. Sampled (not proved): that the C code behaves like the model - checked by exact diff of the "
          "ordered message list and return code on generated rule sets (1-3 namespaces, some with >64 rules/namespaces, 0-3 imports, all four flag settings, "
-         "three API entry styles, buffers <= 16 bytes) with abort/error at every message index k incl. import, imported, first, last and finished messages.",
+         "three API entry styles (scanner + set_flags, yr_rules_scan_mem, scanner with default flags), unrelated scan flags mixed in, buffers <= 19 bytes, "
+         "several consecutive scans per scanner over different buffers) with abort/error at every message index k incl. import, imported, first, last and finished messages.",
     design_ref="DESIGN.md §5 C11, §4 D10",
     note=core.TB + "Condition evaluation is abstracted to a boolean per atom computed from the buffer by the driver (filesize comparison, plain byte-string "
          "containment); module load functions and string matching themselves are outside C11 (C01-C04, C14). An ABORT answer to a module message and any "
@@ -106,6 +107,19 @@ def gen_ruleset(r, big=False):
     return hexs(buf), ";".join(items), nrules, 2 * len(mods) + nrules + 1
 
 
+def other_buf(r, bufhex):
+    """a second buffer for the same rule set: empty, a truncation, or unrelated bytes (flips string / filesize atoms)"""
+    b = b"" if bufhex == "-" else bytes.fromhex(bufhex)
+    u = r.random()
+    if u < 0.25:
+        return "-"
+    if u < 0.5 and len(b) > 1:
+        return hexs(b[:r.randint(1, len(b) - 1)])
+    if u < 0.75:
+        return hexs(b + bytes(r.choice(b"abcd") for _ in range(r.randint(1, 3))))
+    return hexs(bytes(r.choice(b"xyzab") for _ in range(r.randint(1, 16))))
+
+
 def gen_scripts(r, maxmsg, big):
     """abort/error at every k (small sets) or at boundary k's (big sets), plus a few irregular scripts"""
     if big:
@@ -138,7 +152,12 @@ def gen_cases(r, nsets, nbig):
             sc = list(scripts)
             r.shuffle(sc)
             for o in range(0, len(sc), chunk):
-                cases.append("c%d f=%d api=%s buf=%s items=%s scripts=%s" % (cid, f, api, buf, items, "/".join(sc[o:o + chunk])))
+                bufs = [buf]
+                if r.random() < 0.5:      # history: consecutive scans (same scanner for api=s/d) read different buffers
+                    for _ in range(r.randint(1, 2)):
+                        bufs.insert(r.randrange(len(bufs) + 1), other_buf(r, buf))
+                x = r.choice([0, 0, 0, 0, 1, 4, 5])      # unrelated scan flags must not disturb the report-flag default
+                cases.append("c%d f=%d x=%d api=%s buf=%s items=%s scripts=%s" % (cid, f, x, api, "/".join(bufs), items, "/".join(sc[o:o + chunk])))
                 cid += 1
     return cases
 
@@ -192,6 +211,8 @@ def static_hist(cases, hist):
         items = kv(c, "items")
         hist["flags:%s" % kv(c, "f")] += 1
         hist["api:%s" % kv(c, "api")] += 1
+        hist["other_scan_flags:%s" % kv(c, "x")] += 1
+        hist["buffers_per_case:%d" % len(kv(c, "buf").split("/"))] += 1
         if items in seen:
             continue
         seen.add(items)
@@ -220,7 +241,7 @@ def run(tier, replay=None):
     core.proof_coverage(chk, lres, THM)
     b = core.build("asan", harness=["h_cb"])
     r = core.rng("C11")
-    nsets, nbig = (300, 12) if tier == "quick" else (6000, 150)
+    nsets, nbig = (300, 12) if tier == "quick" else (20000, 400)
     cases = gen_cases(r, nsets, nbig)
     if replay:
         cases = [replay["case"]]
